@@ -221,7 +221,10 @@ func judgeServerLog(w *proxyWorld, res *Result) {
 // ---------------------------------------------------------------------------
 // sequential reference state machine: C03, C04, C06
 
+type seqTimes struct{ lo, hi time.Time }
+
 type seqState struct {
+	times      map[int]seqTimes // store-instant bounds per origin response
 	alts       []*OLog // after exchanges with several origin answers: the entry may still be one of these
 	stored     *OLog
 	storable   int
@@ -264,6 +267,9 @@ func judgeSequential(w *proxyWorld, res *Result) {
 				seqAbsorb(w, st, o, ex, def)
 			}
 			continue
+		}
+		if ex.Status == 304 && !clientSentConditional(ex) {
+			res.violate("C06.e", "unsolicited-304", "%s sent no conditional header but received 304 (without a body); origin requests for it: %s [%s]", desc, originSummary(cons), pd)
 		}
 		if ex.Method != "GET" || ex.Req.Range != "" {
 			if len(cons) == 0 && ex.Status < 500 {
@@ -366,7 +372,13 @@ func judgeSequential(w *proxyWorld, res *Result) {
 		case first.Status == 304 && first.Cond && st.stored != nil:
 			res.Probes["revalidated_304"]++
 			// C06.c: stored body stays in service
-			if ex.Status == 200 && o != nil && o.N != st.stored.N && len(cons) == 1 {
+			if ex.Status == 200 && o != nil && o.N != st.stored.N && len(cons) == 1 && st.isAlt(o) {
+				// the 304 tells which of the candidate responses is the stored one
+				st.stored = o
+				if tm, ok := st.times[o.N]; ok {
+					st.lo, st.hi = tm.lo, tm.hi
+				}
+			} else if ex.Status == 200 && o != nil && o.N != st.stored.N && len(cons) == 1 {
 				res.violate("C06.c", "304-served-other-body", "%s was revalidated with 304 but the client received origin response #%d instead of the stored #%d [%s]", desc, o.N, st.stored.N, pd)
 			}
 			if ex.Status == 200 && len(cons) == 1 && lbl != "REVALIDATED" {
@@ -448,6 +460,10 @@ func seqAbsorb(w *proxyWorld, st *seqState, o *OLog, ex *Exch, def time.Duration
 		if ex.RecvT.IsZero() {
 			st.hi = o.T
 		}
+		if st.times == nil {
+			st.times = map[int]seqTimes{}
+		}
+		st.times[o.N] = seqTimes{st.lo, st.hi}
 		if o.Aborted {
 			st.storable = storeMustNot
 			st.freshKnown = false
@@ -472,6 +488,28 @@ func seqAbsorb(w *proxyWorld, st *seqState, o *OLog, ex *Exch, def time.Duration
 	default:
 		// not stored; a stale entry stays stale
 	}
+}
+
+func clientSentConditional(ex *Exch) bool {
+	for _, kv := range ex.Req.Hdr {
+		switch http.CanonicalHeaderKey(kv[0]) {
+		case "If-None-Match", "If-Modified-Since", "If-Match", "If-Unmodified-Since":
+			return true
+		}
+	}
+	return false
+}
+
+func originSummary(cons []*OLog) string {
+	var o []string
+	for _, c := range cons {
+		s := fmt.Sprintf("#%d->%d", c.N, c.Status)
+		if c.Cond {
+			s += "(conditional)"
+		}
+		o = append(o, s)
+	}
+	return strings.Join(o, " ")
 }
 
 func hdrDesc(h http.Header) string {
